@@ -158,4 +158,97 @@ theorem run_exit (closed : Bool) (queued : Nat) :
   rw [runFlush_table, runClose_table]
   simp
 
+
+/-! ### memtable.recover: merging the leftover wal files -/
+
+abbrev Ev := String × Nat
+
+/-- what recovery does with one leftover wal `f` holding the entries `es` (id, version): open, read, apply and re-log every
+    entry, and only then delete the file -/
+def fileEvents (f : Nat) (es : List (Nat × Nat)) : List Ev :=
+  [("wal.Open", f), ("wal.Read", f)] ++ es.flatMap (fun e => [("skiplist.Set", e.1), ("wal.Write", e.1)]) ++ [("wal.Delete", f)]
+
+def recoverSpec (readWal : Nat → Option (List (Nat × Nat))) : List Nat → Nat → List Ev → Option (Nat × List Ev)
+  | [], mv, ev => some (mv, ev)
+  | f :: fs, mv, ev =>
+    match readWal f with
+    | none => none
+    | some es => recoverSpec readWal fs (es.foldl (fun m e => max m e.2) mv) (ev ++ fileEvents f es)
+
+theorem recover_inner (es : List (Nat × Nat)) (k : List Nat → Nat → List Ev → Option (Nat × List Ev))
+    (w : List Nat) (mv : Nat) (ev : List Ev) :
+    List.foldr (fun (entry : Nat × Nat) (kont5 : List Nat → Nat → List Ev → Option (Nat × List Ev)) => fun walFiles maxVersion ev =>
+        kont5 walFiles (max maxVersion entry.2) (ev ++ [("skiplist.Set", entry.1)] ++ [("wal.Write", entry.1)])) k es w mv ev
+      = k w (es.foldl (fun m e => max m e.2) mv) (ev ++ es.flatMap (fun e => [("skiplist.Set", e.1), ("wal.Write", e.1)])) := by
+  induction es generalizing mv ev with
+  | nil => simp
+  | cons e es ih =>
+    simp only [List.foldr_cons, List.foldl_cons, List.flatMap_cons]
+    rw [ih]
+    simp [List.append_assoc]
+
+/-- the translated merge loop of `memtable.recover`: the leftover wals are taken in sorted order; each one is read, every
+    entry is applied and written to the new wal, and only then the old file is deleted; a wal that cannot be read panics
+    (`none`); the result is the largest version seen -/
+theorem recoverWals_eq (sort : List Nat → List Nat) (readWal : Nat → Option (List (Nat × Nat))) (files : List Nat) :
+    GenDB.recoverWals sort readWal files [] =
+      if files = [] then some (0, []) else recoverSpec readWal (sort files) 0 [] := by
+  unfold GenDB.recoverWals
+  dsimp only
+  by_cases h0 : files = []
+  · simp [h0]
+  · have hl : ¬ files.length = 0 := fun h => h0 (List.eq_nil_of_length_eq_zero h)
+    simp only [hl, decide_false, Bool.false_eq_true, ↓reduceIte, h0]
+    generalize sort files = l
+    suffices h : ∀ (l w : List Nat) (mv : Nat) (ev : List Ev),
+        List.foldr (fun file (kont1 : List Nat → Nat → List Ev → Option (Nat × List Ev)) => fun walFiles maxVersion ev =>
+          if (readWal file).isNone = true then none
+          else List.foldr (fun (entry : Nat × Nat) (kont5 : List Nat → Nat → List Ev → Option (Nat × List Ev)) => fun walFiles maxVersion ev =>
+              kont5 walFiles (max maxVersion entry.2) (ev ++ [("skiplist.Set", entry.1)] ++ [("wal.Write", entry.1)]))
+            (fun walFiles maxVersion ev => kont1 walFiles maxVersion (ev ++ [("wal.Delete", file)]))
+            ((readWal file).getD []) walFiles maxVersion (ev ++ [("wal.Open", file)] ++ [("wal.Read", file)]))
+          (fun _ maxVersion ev => some (maxVersion, ev)) l w mv ev = recoverSpec readWal l mv ev by
+      have := h l l 0 []
+      simpa using this
+    intro l
+    induction l with
+    | nil => intro w mv ev; rfl
+    | cons f fs ih =>
+      intro w mv ev
+      simp only [List.foldr_cons, recoverSpec]
+      cases hr : readWal f with
+      | none => simp
+      | some es =>
+        simp only [Option.isNone_some, Bool.false_eq_true, ↓reduceIte, Option.getD_some]
+        rw [recover_inner, ih]
+        simp [fileEvents, List.append_assoc]
+
+
+theorem recoverSpec_some (readWal : Nat → Option (List (Nat × Nat))) (l : List Nat) :
+    ∀ (mv : Nat) (ev : List Ev) (r : Nat × List Ev), recoverSpec readWal l mv ev = some r →
+      r.2 = ev ++ l.flatMap (fun f => fileEvents f ((readWal f).getD [])) ∧
+      r.1 = l.foldl (fun m f => ((readWal f).getD []).foldl (fun m e => max m e.2) m) mv ∧
+      ∀ f ∈ l, (readWal f).isSome := by
+  induction l with
+  | nil =>
+    intro mv ev r h
+    simp only [recoverSpec, Option.some.injEq] at h
+    subst h
+    simp
+  | cons f fs ih =>
+    intro mv ev r h
+    simp only [recoverSpec] at h
+    cases hr : readWal f with
+    | none => rw [hr] at h; cases h
+    | some es =>
+      rw [hr] at h
+      obtain ⟨h1, h2, h3⟩ := ih _ _ r h
+      refine ⟨?_, ?_, ?_⟩
+      · rw [h1]; simp [hr, List.append_assoc]
+      · rw [h2]; simp [hr]
+      · intro g hg
+        rcases List.mem_cons.mp hg with rfl | hg
+        · simp [hr]
+        · exact h3 g hg
+
 end DBTie
